@@ -119,6 +119,35 @@ Proof.
   eapply inv_mint_code; eauto.
 Qed.
 
+(* the authorization endpoint minting by itself (implicit / hybrid response types): whatever it mints - code, access
+   token, ID Token - is minted without based_on and without a scope argument, so it carries the grant's scope *)
+Lemma inv_mint_root c s gi cls mx mints e s2 id :
+  inv c s -> mint s gi cls None None mx mints e = Ok (s2, id) -> inv c s2.
+Proof.
+  intros (Ht&Hp&Hg) Hm. split; [|split].
+  - eapply good_mint; eauto. intros g0 x _ Hx; discriminate Hx.
+  - pose proof Hm as Hm'. apply mint_ok in Hm' as (_&_&Hgr&Hpa&_).
+    eapply parsed_good_mono; [exact Hp|eapply mint_ext; eauto|now apply gext_same|exact Hpa].
+  - apply mint_ok in Hm as (_&_&Hgr&_). intros gi0 g0 H0. rewrite Hgr in H0. eapply Hg; eauto.
+Qed.
+Lemma inv_mint_if c b s gi cls mx mints e s2 o : inv c s -> mint_if b s gi cls mx mints e = Ok (s2, o) -> inv c s2.
+Proof.
+  intros Hi H. apply mint_if_ok in H as [(_&->&_)|(id&_&_&Hm)]; [exact Hi|eapply inv_mint_root; eauto].
+Qed.
+Lemma inv_authorize_rt c s u cl sc wc wt wi : inv c s -> inv c (fst (do_authorize_rt c s u cl sc wc wt wi)).
+Proof.
+  intros Hi. unfold do_authorize_rt. cbv zeta.
+  set (g := mkGrant u cl false (now s + c_grant_exp c) match sc with [] => [] | _ :: _ => filter_scopes c cl sc end sc
+                    (redirect_of cl) (now s + c_authn_valid c) false).
+  assert (H1 : inv c (mkSt (now s) (grants s ++ [g]) (toks s) (parsed s))).
+  { apply inv_add_grant; auto. unfold g; cbn. destruct sc; reflexivity. }
+  repeat match goal with
+         | |- context [mint_if ?b ?s0 ?gi ?cls ?mx ?mi ?e] =>
+             let H := fresh "Hm" in destruct (mint_if b s0 gi cls mx mi e) as [[? ?]| |] eqn:H;
+               [eapply inv_mint_if in H; [|eassumption]|..]
+         end; cbn [fst]; assumption.
+Qed.
+
 Theorem inv_step c s o : inv c s -> inv c (fst (step c s o)).
 Proof.
   intros Hi. pose proof Hi as (Ht&Hp&Hg). pose proof (step_ext c s o) as He. pose proof (step_gext c s o Hg) as Hge.
@@ -219,6 +248,7 @@ Proof.
     destruct (Hgs _ Hin0) as (g&G1&G2&G3). destruct (in_user g0 s (t_grant t0)); exists g; auto.
   - (* Tick *) repeat split; assumption.
   - (* AuthorizeCookie *) now apply inv_authorize_cookie.
+  - (* AuthorizeRT *) now apply inv_authorize_rt.
 Qed.
 
 (* ---- every reachable state ---- *)
@@ -302,6 +332,76 @@ Proof.
   { pose proof (inv_step c _ (AuthorizeCookie prev u cl sc rd fresh) (inv_run c pre init (inv_init c))) as H.
     cbn [step] in H. now rewrite Hs in H. }
   apply authorize_cookie_grant in Hs as (tc'&g&Hc'&Hn&Ha&Hcl). rewrite Hc in Hc'. inversion Hc'; subst tc'.
+  destruct (run_gext c post s1 _ g Hn) as (g'&Hn'&(_&G2&G3&_)).
+  rewrite <- Hg in Hn'. destruct (no_escalation_from c s1 post k t g' x Hi Ht Hn' Hx) as (A&B).
+  rewrite G3, Ha in A. rewrite G2, Hcl in B. auto.
+Qed.
+
+(* ---- tokens minted by the authorization endpoint itself (implicit / hybrid response types) ---- *)
+(* what a later mint leaves of an earlier token: everything but `used` / `revoked` *)
+Lemma mint_if_keeps b s gi cls mx mints e s' o k t :
+  mint_if b s gi cls mx mints e = Ok (s', o) -> tget k s = Some t ->
+  exists t', tget k s' = Some t' /\ t_cls t' = t_cls t /\ t_based t' = t_based t /\ t_scope t' = t_scope t /\ t_grant t' = t_grant t.
+Proof.
+  intros H Ht. apply mint_if_ext in H. destruct (H _ _ Ht) as (t'&Ht'&(L1&L2&L3&_&_&_&L7&_)). eauto 10.
+Qed.
+Lemma mint_if_new b s gi cls mx mints e s' o id :
+  mint_if b s gi cls mx mints e = Ok (s', o) -> o = Some id ->
+  exists tn g, tget id s' = Some tn /\ nth_error (grants s) gi = Some g /\ t_grant tn = gi /\ t_cls tn = cls /\
+               t_based tn = None /\ t_scope tn = g_scope g.
+Proof.
+  intros H Ho. apply mint_if_ok in H as [(_&_&->)|(id'&_&->&Hm)]; [discriminate|]. inversion Ho; subst id'.
+  eapply mint_root_new; exact Hm.
+Qed.
+(* VIEWS at the authorization endpoint: the scope the authorization response states is the requested scope filtered by
+   the client's allowed scopes, and that is exactly the scope of every artefact the response carries - the code, the
+   access token and the ID Token minted there (none of them is based on another token) - all in the new grant. *)
+Theorem front_channel_views c s u cl sc wc wt wi s1 code acc idt scope :
+  do_authorize_rt c s u cl sc wc wt wi = (s1, OAuthzRT code acc idt scope) ->
+  scope = filter_scopes c cl sc /\
+  forall k cls, (code = Some k /\ cls = Code) \/ (acc = Some k /\ cls = Access) \/ (idt = Some k /\ cls = IdTok) ->
+    exists t, tget k s1 = Some t /\ t_cls t = cls /\ t_based t = None /\ t_scope t = scope /\ t_grant t = length (grants s).
+Proof.
+  unfold do_authorize_rt. cbv zeta.
+  set (g := mkGrant u cl false (now s + c_grant_exp c) match sc with [] => [] | _ :: _ => filter_scopes c cl sc end sc
+                    (redirect_of cl) (now s + c_authn_valid c) false).
+  assert (Hgs : g_scope g = filter_scopes c cl sc) by (unfold g; cbn; destruct sc; reflexivity).
+  set (s0 := mkSt (now s) (grants s ++ [g]) (toks s) (parsed s)).
+  destruct (mint_if wc s0 (length (grants s)) Code (Some 1) (Some (c_code_mints c)) (c_code_exp c)) as [[s2 co]| |] eqn:H1; try discriminate.
+  destruct (mint_if wt s2 (length (grants s)) Access None None (c_access_exp c)) as [[s3 ac]| |] eqn:H2; try discriminate.
+  destruct (mint_if wi s3 (length (grants s)) IdTok None None (c_idtok_exp c)) as [[s4 it]| |] eqn:H3; try discriminate.
+  intros H; inversion H; subst; clear H. split; [reflexivity|].
+  assert (G0 : nth_error (grants s0) (length (grants s)) = Some g)
+    by (unfold s0; cbn [grants]; rewrite nth_error_app2 by lia; now rewrite Nat.sub_diag).
+  assert (G2 : grants s2 = grants s0) by exact (mint_if_grants _ _ _ _ _ _ _ _ _ H1).
+  assert (G3 : grants s3 = grants s0) by (rewrite (mint_if_grants _ _ _ _ _ _ _ _ _ H2); exact G2).
+  intros k cls [(Hk&->)|[(Hk&->)|(Hk&->)]].
+  - destruct (mint_if_new _ _ _ _ _ _ _ _ _ _ H1 Hk) as (tn&g'&T&G&A&B&C&D). rewrite G0 in G. inversion G; subst g'.
+    destruct (mint_if_keeps _ _ _ _ _ _ _ _ _ _ _ H2 T) as (t2&T2&B2&C2&D2&A2).
+    destruct (mint_if_keeps _ _ _ _ _ _ _ _ _ _ _ H3 T2) as (t3&T3&B3&C3&D3&A3).
+    exists t3. repeat split; auto; congruence.
+  - destruct (mint_if_new _ _ _ _ _ _ _ _ _ _ H2 Hk) as (tn&g'&T&G&A&B&C&D). rewrite G2, G0 in G. inversion G; subst g'.
+    destruct (mint_if_keeps _ _ _ _ _ _ _ _ _ _ _ H3 T) as (t3&T3&B3&C3&D3&A3).
+    exists t3. repeat split; auto; congruence.
+  - destruct (mint_if_new _ _ _ _ _ _ _ _ _ _ H3 Hk) as (tn&g'&T&G&A&B&C&D). rewrite G3, G0 in G. inversion G; subst g'.
+    exists tn. repeat split; auto; congruence.
+Qed.
+(* BOUNDED BY ITS OWN REQUEST: after an implicit / hybrid authorization, every token ever found in the grant it created -
+   the front-channel access token and ID Token, the code, what the code is redeemed for, every refresh down the chain -
+   carries only scope values THIS request asked for and its client is allowed, whatever happens before and after. *)
+Theorem front_channel_bounded c pre u cl sc wc wt wi s1 x0 post k t x :
+  step c (fst (run c init pre)) (AuthorizeRT u cl sc wc wt wi) = (s1, x0) ->
+  tget k (fst (run c s1 post)) = Some t -> t_grant t = length (grants (fst (run c init pre))) -> In x (t_scope t) ->
+  In x sc /\ In x (c_allowed c cl).
+Proof.
+  intros Hs Ht Hg Hx. cbn [step] in Hs.
+  assert (Hi : inv c s1).
+  { pose proof (inv_step c _ (AuthorizeRT u cl sc wc wt wi) (inv_run c pre init (inv_init c))) as H.
+    cbn [step] in H. now rewrite Hs in H. }
+  destruct (authorize_rt_grants c (fst (run c init pre)) u cl sc wc wt wi) as (g&Hgr&Hcl&Ha&_).
+  rewrite Hs in Hgr. cbn [fst] in Hgr.
+  assert (Hn : nth_error (grants s1) (length (grants (fst (run c init pre)))) = Some g)
+    by (rewrite Hgr, nth_error_app2 by lia; now rewrite Nat.sub_diag).
   destruct (run_gext c post s1 _ g Hn) as (g'&Hn'&(_&G2&G3&_)).
   rewrite <- Hg in Hn'. destruct (no_escalation_from c s1 post k t g' x Hi Ht Hn' Hx) as (A&B).
   rewrite G3, Ha in A. rewrite G2, Hcl in B. auto.
